@@ -172,16 +172,22 @@ static int32_t rd_open(struct jls_rd_s ** instance, const char * path, bool repa
         goto exit;
     }
 
-    GOE(jls_core_scan_initial(core));
-    GOE(jls_core_scan_sources(core));
-    GOE(jls_core_scan_signals(core));
-
+    // An interrupted link update only exists in a file that was not closed:
+    // behind a proper END chunk the same bytes are damage, not a link to complete.
+    int64_t pos_first = jls_raw_chunk_tell(core->raw);
     if (jls_core_rd_chunk_end(core)) {
         GOE(JLS_ERROR_EMPTY);  // no chunk found!
     }
     int64_t pos = jls_raw_chunk_tell(core->raw);
+    bool is_closed = (self->core.chunk_cur.hdr.tag == JLS_TAG_END);
+    jls_raw_torn_link_strict(core->raw, is_closed);
+    GOE(jls_raw_chunk_seek(core->raw, pos_first));
 
-    if (repair && (self->core.chunk_cur.hdr.tag != JLS_TAG_END)) {
+    GOE(jls_core_scan_initial(core));
+    GOE(jls_core_scan_sources(core));
+    GOE(jls_core_scan_signals(core));
+
+    if (repair && !is_closed) {
         JLS_LOGW("not properly closed");  // indices & summaries may be incomplete
         GOE(jls_raw_close(core->raw));
         rc = jls_raw_open(&core->raw, path, "a");
